@@ -415,7 +415,7 @@ func TestC03(t *testing.T) {
 			CheckProp(t, "C03", "c03msg", tn, func(rt *rapid.T) *CaseValue {
 				o := DefaultOpts(Arbitrary)
 				o.NoAbsent = true
-				o.BigProb = 0
+				o.BigProb, o.HugeProb, o.HugeObj = 0, 0, 0 // sizes do not matter for byte order
 				v, ft := GenValue(rt, tn, o)
 				c := &CaseValue{Type: tn, V: v}
 				if ckFieldName(Types[tn]) != "" && rapid.IntRange(0, 4).Draw(rt, "noservice") == 0 {
